@@ -16,7 +16,7 @@ import (
 func init() {
 	register(&propDef{
 		id:      "C04",
-		explain: "Structural necessary conditions of 'a client call returns the response to its own request': (R1) in the transport's RoundTrip a connection obtained from AcquireConn is, on every path, closed, released to the pool, or handed to the stream-close closure exactly once; (R2) it is released to the pool only on paths where the response was read without error; (R3) inside the stream-close closure the connection is pooled only under a condition that depends on the body having been read to its end (and on the close decision and the caller's error); (R4) in the pipelining client a work item is given back to the pool by the caller only when it was never queued or its completion was received - never after a timeout while the connection goroutines still hold it; the pipeline writer hands every request it wrote either to the reader queue or completes it with an error and stops; (R5) response-header fields that closure consults live and that the transport did not also capture when it built the closure (recomputed on every run; none on today's tree, where the stream remembers its declared length and the close flag is captured) are never reset before the body stream of the same Response is closed, in any function of the module; (R6) the connection's buffered reader is returned to its pool by RoundTrip itself exactly on the paths on which no body stream reading through it is handed to the caller (there the stream-close callback returns it); (R7) every client function that reads a response off a connection for a request has consulted the request's IsHead() on every path to that read and stores SkipBody = true under it - a HEAD response announces a length but carries no body, and reading one would take the next response's bytes for it. (R8) where the client itself raises Response.SkipBody on the caller's Response (HEAD exchanges), the caller's value is stored back on every path before the function returns or signals completion, so the flag cannot stick to a reused Response object and leave a later GET body unread on the connection. Not decided: interleavings, slow or partial servers, byte-level framing of responses (C03's mirror).",
+		explain: "Structural necessary conditions of 'a client call returns the response to its own request': (R1) in the transport's RoundTrip a connection obtained from AcquireConn is, on every path, closed, released to the pool, or handed to the stream-close closure exactly once; (R2) it is released to the pool only on paths where the response was read without error; (R3) inside the stream-close closure the connection is pooled only under a condition that depends on the body having been read to its end (and on the close decision and the caller's error); (R4) in the pipelining client a work item is given back to the pool by the caller only when it was never queued or its completion was received - never after a timeout while the connection goroutines still hold it; the pipeline writer hands every request it wrote either to the reader queue or completes it with an error and stops; (R5) response-header fields that closure consults live and that the transport did not also capture when it built the closure (recomputed on every run; none on today's tree, where the stream remembers its declared length and the close flag is captured) are never reset before the body stream of the same Response is closed, in any function of the module; (R6) the connection's buffered reader is returned to its pool by RoundTrip itself exactly on the paths on which no body stream reading through it is handed to the caller (there the stream-close callback returns it); (R7) every client function that reads a response off a connection for a request has consulted the request's IsHead() on every path to that read and stores SkipBody = true under it - a HEAD response announces a length but carries no body, and reading one would take the next response's bytes for it. (R8) where the client itself raises Response.SkipBody on the caller's Response (HEAD exchanges), the caller's value is stored back on every path before the function returns or signals completion, so the flag cannot stick to a reused Response object and leave a later GET body unread on the connection. (R9) in the pipeline connection worker the pending-response queue is drained only on paths that have received the end of both the writer and the reader goroutine (select cases and plain receives on the two completion channels), so no item can enter the queue after the drain and survive into the re-dialled connection. Not decided: interleavings, slow or partial servers, byte-level framing of responses (C03's mirror).",
 		run:     runC04,
 	})
 	register(&propDef{
@@ -200,6 +200,7 @@ func runC04(p *Prog, r *Report) {
 	}
 	headSkipsBodyRule(p, r)
 	skipBodyRestoredRule(p, r)
+	pendingDrainedAfterBothStopped(p, r)
 	// R4a: pipelineWork typestate in the callers
 	runPipelineCaller(p, r, "C04")
 	// R4b: the writer
@@ -1338,4 +1339,154 @@ func failureCarriesError(p *Prog, r *Report) {
 		}
 	}
 	r.Floor("R4", "error stores of the pipeline writer and reader", n, 7)
+}
+
+// pendingDrainedAfterBothStopped (C04.R9): when a pipelined connection ends,
+// the work items still waiting in the pending-response queue are failed. That
+// may only happen once BOTH connection goroutines are gone: while the writer
+// still runs it keeps moving items from the request queue into the pending
+// queue, and an item that arrives after the drain stays there - the reader of
+// the re-dialled connection pairs it with the first response it reads, which
+// belongs to somebody else's request. In pipelineConnClient.worker every
+// receive from the pending queue (directly or in a closure it calls) is
+// reached only on paths that have received from both completion channels.
+func pendingDrainedAfterBothStopped(p *Prog, r *Report) {
+	fn := p.Func("(*pipelineConnClient).worker")
+	if fn == nil {
+		r.Undecided("R9", "(*pipelineConnClient).worker", "not found")
+		return
+	}
+	// completion channels: made here, sent to by a goroutine started here
+	done := map[ssa.Value]int{}
+	for _, b := range fn.Blocks {
+		for _, in := range b.Instrs {
+			g, ok := in.(*ssa.Go)
+			if !ok {
+				continue
+			}
+			mc, ok := g.Call.Value.(*ssa.MakeClosure)
+			if !ok {
+				continue
+			}
+			cf := mc.Fn.(*ssa.Function)
+			for _, cb := range cf.Blocks {
+				for _, ci := range cb.Instrs {
+					if s, ok := ci.(*ssa.Send); ok {
+						ch := s.Chan
+						if u, ok := ch.(*ssa.UnOp); ok && u.Op == token.MUL {
+							ch = u.X // the channel variable is captured by reference
+						}
+						if fvr, ok := ch.(*ssa.FreeVar); ok {
+							for i, fv := range cf.FreeVars {
+								if fv == fvr && i < len(mc.Bindings) {
+									if _, seen := done[mc.Bindings[i]]; !seen {
+										done[mc.Bindings[i]] = len(done)
+									}
+								}
+							}
+						}
+					}
+				}
+			}
+		}
+	}
+	if len(done) < 2 {
+		r.Undecided("R9", "worker: completion channels of the writer and reader goroutines", fmt.Sprintf("found %d", len(done)))
+		return
+	}
+	chanOf := func(v ssa.Value) (int, bool) {
+		// the binding is the channel value itself, or the address of the local that holds it
+		for {
+			if i, ok := done[v]; ok {
+				return i, true
+			}
+			if u, ok := v.(*ssa.UnOp); ok && u.Op == token.MUL {
+				v = u.X
+				continue
+			}
+			return 0, false
+		}
+	}
+	recvsPending := func(f *ssa.Function) bool {
+		found := false
+		for _, g := range funcAndClosures(f) {
+			if g != f && f == fn {
+				continue
+			}
+			for _, b := range g.Blocks {
+				for _, in := range b.Instrs {
+					if u, ok := in.(*ssa.UnOp); ok && u.Op == token.ARROW {
+						if _, fv := loadedField(u.X); fv != nil && fv.Name() == "chR" {
+							found = true
+						}
+					}
+				}
+			}
+		}
+		return found
+	}
+	n, bad := 0, 0
+	var wit []string
+	var pos token.Pos
+	x := NewExplorer(p, fn, Hooks{
+		Instr: func(x *Explorer, st *State, in ssa.Instruction) {
+			target := false
+			switch w := in.(type) {
+			case *ssa.UnOp:
+				if w.Op == token.ARROW {
+					if i, ok := chanOf(w.X); ok {
+						st.Set(1 << uint(i))
+					}
+					if _, fv := loadedField(w.X); fv != nil && fv.Name() == "chR" {
+						target = true
+					}
+				}
+			case *ssa.Call:
+				if mc, ok := w.Call.Value.(*ssa.MakeClosure); ok {
+					if cf, ok := mc.Fn.(*ssa.Function); ok && recvsPending(cf) {
+						target = true
+					}
+				}
+			}
+			if target {
+				n++
+				all := uint64(1)<<uint(len(done)) - 1
+				if st.Ev&all != all {
+					bad++
+					if wit == nil {
+						wit = x.Path(st)
+						pos = in.Pos()
+					}
+				}
+			}
+		},
+		Branch: func(x *Explorer, st *State, cond ssa.Value, taken bool, from *ssa.BasicBlock) {
+			// select index == i taken: state i of the select was received
+			bo, ok := cond.(*ssa.BinOp)
+			if !ok || bo.Op != token.EQL || !taken {
+				return
+			}
+			ex, ok := bo.X.(*ssa.Extract)
+			if !ok || ex.Index != 0 {
+				return
+			}
+			sel, ok := ex.Tuple.(*ssa.Select)
+			if !ok {
+				return
+			}
+			if k, okk := constInt(bo.Y); okk && int(k) < len(sel.States) && sel.States[k].Dir == types.RecvOnly {
+				if i, ok := chanOf(sel.States[k].Chan); ok {
+					st.Set(1 << uint(i))
+				}
+			}
+		},
+	})
+	x.Filter = noIntFilter
+	x.Run(nil)
+	if x.Aborted || n == 0 {
+		r.Undecided("R9", "worker: the pending queue is drained only after both goroutines stopped", "no receive from the pending queue was reached")
+		return
+	}
+	r.Check("R9", "worker: the pending-response queue is drained only after both the writer and the reader goroutine have reported their end", bad == 0, p.Pos(pos),
+		fmt.Sprintf("%d of %d explored arrivals at the drain have not yet received from both completion channels: the goroutine still running can put further items into the queue after the drain; they stay there across the re-dial and are answered with other requests' responses", bad, n), wit...)
 }
